@@ -2,13 +2,14 @@
   Proofs/C20Two.lean — the table behind `C20_two_faults_within_spec` (kept out of Props so that
   each file builds in well under a minute).
 -/
-import PsutilModel.Proofs.C20
+import PsutilModel.Proofs.C20Faults
 namespace Psutil.C20
 
 /-- second faulted call of a method that went on in `mode` after `call1`: outcome within the
     specification's allowed set for a failure of `call2` -/
 def secondOK (p : Platform) (m : Method) (mode : Mode) (call1 call2 : String) (e2 : Err) (env : Env) : Bool :=
   Spec.allowed p m.name (Spec.recoverable p m.name call2) e2 env (second cfg p m mode call1 call2 e2 env).1
+    || zombieDeviation p e2 env (second cfg p m mode call1 call2 e2 env).1
 
 def row2OK (p : Platform) (row : String × Nat × String × String × List String) : Bool :=
   match methodOf? p row.1, Mode.ofTag? row.2.2.2.1 with
